@@ -336,6 +336,9 @@ func ChanCap(site string, n int) {}
 // Foreground makes background threads whose function name contains sub part of schedule exploration.
 func Foreground(sub string) {}
 
+// FireTimers runs every pending time.AfterFunc callback (natively: waits for them to fire).
+func FireTimers() { time.Sleep(time.Duration(Param("native_timer_ms", 1300)) * time.Millisecond) }
+
 // FireTickers makes every time.Ticker deliver one tick (natively tickers run on real time).
 func FireTickers()  { time.Sleep(time.Duration(Param("native_tick_ms", 1300)) * time.Millisecond) }
 func AdvanceClock() {}
